@@ -3,6 +3,7 @@ package e4
 import (
 	"bytes"
 	"fmt"
+	"github.com/prometheus/common/model"
 	"os"
 	"path/filepath"
 	"reflect"
@@ -121,6 +122,7 @@ func runC11(w *core.WorkerCtx, idx int) *core.CaseResult {
 	// assignment: some jobs get targets, some none, plus a job that does not exist
 	assign := map[string][]*target.Target{}
 	want := map[string]map[uint64]bool{}
+	byHash := map[uint64]*target.Target{}
 	h := uint64(1000)
 	for _, j := range spec.Jobs {
 		want[j.Name] = map[uint64]bool{}
@@ -130,7 +132,19 @@ func runC11(w *core.WorkerCtx, idx int) *core.CaseResult {
 			t := &target.Target{Hash: h, Series: 10}
 			t.Labels = append(t.Labels, lbl("__address__", fmt.Sprintf("10.1.0.%d:9100", h%250)), lbl("__scheme__", r.PickS("http", "https")),
 				lbl("__metrics_path__", "/metrics"), lbl("instance", fmt.Sprintf("i%d", h)), lbl("job", j.Name))
+			// labels the coordinator ships beyond address, scheme and path: names that are not valid label names and
+			// params changed by relabeling travel under a reserved prefix, a target may carry its own interval and
+			// timeout, further params, and temporary labels
+			if r.Intn(3) == 0 {
+				for _, x := range [][2]string{{"__invalid_label_1app", "digit-leading"}, {"__invalid_label___param_module", "tcp_connect"}, {"__scrape_interval__", "5m"},
+					{"__scrape_timeout__", "1m"}, {"__param_extra", "v-" + fmt.Sprint(h)}, {"team", "t" + fmt.Sprint(h%3)}, {"__tmp_keep", "1"}} {
+					if r.Intn(2) == 0 {
+						t.Labels = append(t.Labels, lbl(x[0], x[1]))
+					}
+				}
+			}
 			assign[j.Name] = append(assign[j.Name], t)
+			byHash[h] = t
 			want[j.Name][h] = true
 		}
 	}
@@ -205,6 +219,19 @@ func runC11(w *core.WorkerCtx, idx int) *core.CaseResult {
 				got[hv] = true
 				if string(g.Labels["__param__jobName"]) != oj.JobName {
 					res.Violate("C11/job-targets", "job %s: static entry routed to job %q", oj.JobName, g.Labels["__param__jobName"])
+				}
+				// the static entry carries every label the coordinator assigned (the scheme travels as a param)
+				if at := byHash[hv]; at != nil {
+					for _, l := range at.Labels {
+						if l.Name == "__scheme__" {
+							continue
+						}
+						res.AddStat("assigned_labels_compared", 1)
+						if got, ok := g.Labels[model.LabelName(l.Name)]; !ok || string(got) != l.Value {
+							res.Violate("C11/job-target-labels", "%s: job %s target %d: assigned label %s=%q, the static entry has %q (present: %v)", phase, oj.JobName, hv, l.Name, l.Value, got, ok)
+							witness()
+						}
+					}
 				}
 			}
 			if nonStatic {
@@ -421,6 +448,7 @@ func runC11(w *core.WorkerCtx, idx int) *core.CaseResult {
 				}
 				nt := &target.Target{Hash: 777777, Labels: []lblT{lbl("__address__", "10.7.7.7:9100"), lbl("__scheme__", "http"), lbl("__metrics_path__", "/metrics"), lbl("job", "late_job")}}
 				a2["late_job"] = append(a2["late_job"], nt)
+				byHash[nt.Hash] = nt
 				w2["late_job"][nt.Hash] = true
 				if err := in.UpdateTargets(a2); err == nil {
 					if gb, err := in.GeneratedConfig(); err == nil {
